@@ -250,7 +250,7 @@ def r_entry(ctx: Ctx, model):
     mi = model.cls("pygaps.core.modelisotherm.ModelIsotherm")
     for name in ("iast_point", "reverse_iast", "iast_point_fraction", "iast_binary_svp", "iast_binary_vle"):
         fi = model.func(f"{IA}.{name}")
-        for bad in ("model", "relative"):
+        for bad in ("model", "relative", "relative%"):
             I = mk(model)
             I.ext["numpy.linspace"] = lambda I, a, k, n: Vec([S("y0"), S("y1")])
             I.ext["numpy.array"] = lambda I, a, k, n: Obj(kind="Arr2", attrs={"rows": a[0]})
@@ -258,7 +258,7 @@ def r_entry(ctx: Ctx, model):
             I.ext["scipy.optimize.root"] = lambda I, a, k, n: Obj(kind="RootRes", attrs={"x": Vec([S("u0")]), "success": True})
 
             def iso(flag):
-                attrs = {"pressure_mode": "relative" if (bad == "relative" and flag) else "absolute", "pressure_unit": "bar",
+                attrs = {"pressure_mode": bad if (bad.startswith("relative") and flag) else "absolute", "pressure_unit": "bar",
                          "model": Obj(kind="M", attrs={"name": "Freundlich" if (bad == "model" and flag) else "Langmuir"})}
                 return Obj(cls=mi, label="iso", attrs=attrs)
             isos = [iso(False), iso(True)]
@@ -270,7 +270,7 @@ def r_entry(ctx: Ctx, model):
             outs = I.explore(lambda I: I.call_func(fi, list(args), {"warningoff": True}, None), max_paths=5000)
             ok = outs and all(o.kind == "raise" and o.exc.is_a("ParameterError") for o in outs)
             ctx.ob(ok, Finding("C13.I-entry", fi.where, f"{name}|{bad}-not-refused",
-                               f"{name} with {'a Freundlich model isotherm (not IAST-capable)' if bad == 'model' else 'an isotherm in relative pressure'} "
+                               f"{name} with {'a Freundlich model isotherm (not IAST-capable)' if bad == 'model' else 'an isotherm in ' + bad + ' pressure'} "
                                f"must raise ParameterError; outcomes {[repr(o)[:80] for o in outs[:3]]}"),
                    nontrivial_key=("entry", name, bad))
 
@@ -387,6 +387,14 @@ def run(ctx: Ctx):
     r_entry(ctx, model)
     r_wrappers(ctx, model)
     r_dtype(ctx, model)
+    from ..sites import methods_store_nothing
+    ctx.rule("I-fresh: the pure-component spreading pressures IAST equates are computed from the isotherm's current data (no state kept in spreading_pressure_at)")
+    methods_store_nothing(ctx, model, "C13", "I-fresh", ("pygaps.core.pointisotherm.PointIsotherm.spreading_pressure_at",
+                                                         "pygaps.core.modelisotherm.ModelIsotherm.spreading_pressure_at"),
+                          "IAST would equate spreading pressures of data the isotherm no longer holds (after a conversion)")
+    from ..sites import no_absolute_tolerance
+    ctx.rule("I-scale: no absolute-tolerance comparison on pressures / fractions / loadings inside pygaps.iast (any positive partial pressure counts)")
+    no_absolute_tolerance(ctx, model, "C13", "I-scale", ("pygaps.iast.",), "partial pressures / mole fractions")
     from ..sites import no_memoisation
     ctx.rule("I-fresh: no caching decorator on any function of pygaps.iast., pygaps.modelling.")
     no_memoisation(ctx, load(ctx.root), "C13", "I-fresh", ('pygaps.iast.', 'pygaps.modelling.'),
